@@ -346,7 +346,21 @@ func run(c *harness.Ctx, i int) {
 		case 2:
 			cfgStore, argStore = "store", "./store"
 		}
-		cfg := cfgFor(dir, map[string]bool{cfgStore: uncompressed})
+		entries := map[string]bool{cfgStore: uncompressed}
+		// entries for neighbouring paths that say the opposite: a path the store's path merely starts with, its parent
+		// directory, a sibling whose name starts with the store's. None of them is this store.
+		if decoys := rng.Intn(3); decoys > 0 {
+			if decoys == 2 && !uncompressed {
+				delete(entries, cfgStore) // no entry of its own: the defaults apply, whatever the neighbours are told
+			}
+			for _, d := range []string{store[:len(store)-1-rng.Intn(3)], filepath.Dir(store), store + "-old", store + "2", filepath.Join(store, "sub")} {
+				if rng.Intn(2) == 0 {
+					entries[d] = !uncompressed
+				}
+			}
+			c.Count("configs_with_entries_for_neighbouring_paths", 1)
+		}
+		cfg := cfgFor(dir, entries)
 		cmd := exec.Command(bin, "--config", cfg, "chop", "-s", argStore, idxFile, file)
 		cmd.Dir = dir
 		cmd.Env = append(os.Environ(), "HOME="+dir)
